@@ -15,12 +15,12 @@ THEOREMS = ["C53_pktline_total", "C53_pktline_no_oob", "C53_sideband_total", "C5
             "C53_delta_total", "C53_delta_no_oob", "C53_delta_alloc",
             "C53_tree_total", "C53_tree_no_oob", "C53_tree_alloc",
             "C53_index_total", "C53_index_no_oob", "C53_index_alloc",
-            "C53_pack_total", "C53_pack_no_oob", "C53_pack_alloc",
+            "C53_pack_total", "C53_pack_visit_total", "C53_pack_no_oob", "C53_pack_alloc",
             "C53_wild_total", "C53_wild_no_oob",
             "C53_rev_total", "C53_rev_no_oob", "C53_rev_alloc",
             "C53_graph_total", "C53_graph_no_oob", "C53_graph_alloc",
             "C53_objfile_total", "C53_objfile_no_oob",
-            "C53_lines_total", "C53_ident_no_oob", "C53_ident_alloc"]
+            "C53_lines_total", "C53_ident_no_oob", "C53_ident_alloc", "C53_reflog_alloc"]
 MODEL_FILES = ["PktLine.v", "Sideband.v", "Packp.v", "C53Varint.v", "PackBytes.v", "Idx.v"]
 LEVEL_TEXT = ("PARTIAL: Coq theorems (" + ", ".join(THEOREMS) + ") prove, for ALL inputs, termination within the stated fuel "
               "(or, where a model merges fuel exhaustion with a rejection, that more fuel never changes the answer), in-range slice / "
@@ -28,8 +28,8 @@ LEVEL_TEXT = ("PARTIAL: Coq theorems (" + ", ".join(THEOREMS) + ") prove, for AL
               "input-proportional allocation for: pkt-line Read/Scanner, sideband Demuxer/Muxer, LEB128 and entry-size varints, the line "
               "source of every packp v0 decoder, AdvRefs counts, the idx/rev readers (MemoryIndex, LazyIndex, mmap.PackScanner, "
               "Decoder.Decode), the three delta appliers, Tree.Decode, the index (DIRC) decoder with its TREE/REUC/EOIE extensions, the "
-              "pack scanner and delta command loop, wildmatch, the revision parser, the commit-graph file reader, the loose-object "
-              "header and the commit/tag line scanner with Signature.Decode — on the models of those decoders written for C01 C02 C04 "
+              "pack scanner, delta command loop and depth-first delta resolution, wildmatch, the revision parser, the commit-graph file reader, the loose-object "
+              "header, the commit/tag line scanner with Signature.Decode and reflog.Decode — on the models of those decoders written for C01 C02 C04 "
               "C06 C08 C10 C12 C47 C49 C51 (imported, never copied).  Every other piece of decoding code (all 46 repository Fuzz* entry "
               "points, 44 mirrored, plus 7 decode-then-every-lookup targets) is exercised: seeds, mutated / cross-fed seeds, random "
               "bytes AND structurally valid files with every length / offset / count field on {0, max-1, max, max+1}, under recover, a "
@@ -40,8 +40,8 @@ MODELLED = ("plumbing/format/packfile/util: DecodeLEB128, DecodeLEB128FromReader
             "family through harness/cmd/c10), patchDelta / ReaderFromDelta / patchDeltaWriter (Model/Delta.v), Tree.Decode (Model/TreeObj.v), "
             "index.Decoder (Model/IndexFile.v), packfile Scanner / parser bookkeeping / delta command loop (Model/PackParse.v), wildmatch "
             "(Model/Gitignore.v), internal/revision parser (Model/Revision.v), commitgraph fileIndex (Model/CommitGraph.v), objfile.Reader.Header "
-            "(Model/ObjFile.v), the commit/tag line scanner and Signature.Decode (Model/ObjLines.v, Model/Ident.v). Not modelled / no theorem "
-            "(exercised only): the depth-first delta resolution of packfile.Parser (visit), packfile.Packfile read paths, reflog, refname, "
+            "(Model/ObjFile.v), the commit/tag line scanner and Signature.Decode (Model/ObjLines.v, Model/Ident.v), reflog.Decode (Model/Reflog.v), the parser's depth-first delta resolution (visit). Not modelled / no theorem "
+            "(exercised only): packfile.Packfile read paths, refname, "
             "capability lists and protocol v2 messages, config (gcfg), URL parser, zlib, bufio; x/plumbing/worktree FuzzAdd/FuzzOpen are not "
             "mirrored (they need the fixtures module)")
 TRUSTED = [
